@@ -340,4 +340,8 @@ def sum_product(x, y):
         >>> sum_prod(x, y)
         tensor([-0.1201,  0.7353,  1.0557])
     """
-    return 2 * torch.arctanh(torch.tanh(x / 2) * torch.tanh(y / 2))
+    out = 2 * torch.arctanh(torch.tanh(x / 2) * torch.tanh(y / 2))
+    # The product of the two tanh terms underflows to zero when small LLRs are combined
+    # repeatedly (deep polar decoding trees): keep the sign of the result in that case
+    floor = max(torch.finfo(out.dtype).tiny, 1e-30)
+    return torch.where(out.abs() < floor, torch.sign(x) * torch.sign(y) * floor, out)
